@@ -2113,7 +2113,7 @@ def r6(pid):
         st.deliver(M.pubrel(7)), st.deliver(M.publish(b"t", b"q2", 2, 8)), st.deliver(M.pubrel(8)), st.deliver(M.pubrel(8)), st.deliver(M.pubrel(8, 146, (), "short3"))
         st.deliver(M.publish(b"t", b"q1", 1, 9)), st.deliver(M.pubrel(1) + M.publish(b"t", b"q2b", 2, 8) + M.pubrel(8))
         out.append(case("pubrel-unknown-identifiers", st.script(), ["pubrel-unknown"]))
-    if pid == "C09":
+    if pid in ("C09", "C07"):
         # the two directions number their exchanges independently: the client's own QoS 2 publish completing under the number
         # an inbound exchange is using changes nothing for the inbound one
         for when in ("before-pubrec-out", "after-pubcomp-out"):
